@@ -13,6 +13,7 @@ import (
 	"bytes"
 	"fmt"
 
+	"gitlab.com/gomidi/midi/v2"
 	"gitlab.com/gomidi/midi/v2/internal/verifh/engine"
 	"gitlab.com/gomidi/midi/v2/internal/verifh/faultio"
 	"gitlab.com/gomidi/midi/v2/internal/verifh/refsmf"
@@ -52,7 +53,31 @@ func values() []valueSpec {
 				{Kind: sp.OpClose, D: 0}, {Kind: sp.OpSMFAdd}}})
 		}
 	}
+	// large tracks (a chunk body of several kilobytes): one long sysex, many
+	// small events, a large first track followed by a small one
+	big := len(al) // indices of extra messages appended by bigAlphabet
+	cfg := sp.Cfg{Ctor: 0, NoRS: false, TF: smf.MetricTicks(96)}
+	out = append(out, valueSpec{cfg, []sp.Op{{Kind: sp.OpAdd, D: 0, M1: 0}, {Kind: sp.OpAdd, D: 1, M1: big}, {Kind: sp.OpClose, D: 0}, {Kind: sp.OpSMFAdd}}})
+	var many []sp.Op
+	for i := 0; i < 1500; i++ {
+		many = append(many, sp.Op{Kind: sp.OpAdd, D: uint32(i % 3), M1: i % 3})
+	}
+	many = append(many, sp.Op{Kind: sp.OpSMFAdd})
+	out = append(out, valueSpec{cfg, many})
+	out = append(out, valueSpec{sp.Cfg{Ctor: 1, NoRS: true, TF: smf.MetricTicks(96)}, []sp.Op{{Kind: sp.OpAdd, D: 0, M1: big + 1}, {Kind: sp.OpSMFAdd}, {Kind: sp.OpAdd, D: 0, M1: 0}, {Kind: sp.OpClose, D: 0}, {Kind: sp.OpSMFAdd}}})
 	return out
+}
+
+// alphabet is the full alphabet plus two long messages.
+func alphabet() []sp.Msg {
+	al := sp.FullAlphabet()
+	long := make([]byte, 5000)
+	for i := range long {
+		long[i] = byte(i % 127)
+	}
+	al = append(al, sp.Msg{Name: "SysEx5000", Bytes: smf.Message(midi.SysEx(long))})
+	al = append(al, sp.Msg{Name: "Text4500", Bytes: smf.MetaText(string(long[:4500]))})
+	return al
 }
 
 func region(out []byte, k int) string {
@@ -75,7 +100,7 @@ func region(out []byte, k int) string {
 }
 
 func writeFaults(v valueSpec, idx int) {
-	al := sp.FullAlphabet()
+	al := alphabet()
 	// reference output
 	in := sp.Build(v.cfg, al, v.ops)
 	var ref bytes.Buffer
@@ -85,9 +110,10 @@ func writeFaults(v valueSpec, idx int) {
 	}
 	out := ref.Bytes()
 	ctx.Add("values", 1)
+	base := sp.Build(v.cfg, al, v.ops)
 	for _, mode := range []string{"short", "call"} {
 		for k := 0; k <= len(out)+1; k++ {
-			in := sp.Build(v.cfg, al, v.ops)
+			in := base.Clone() // smf.SMF is a value type; WriteTo closes open tracks in place
 			fw := &faultio.FailWriter{At: k, Mode: mode}
 			var n int64
 			var err error
@@ -186,7 +212,7 @@ func main() {
 	ctx.Jobs("read-faults-generated", len(gf), func(j int) { readFaults(gf[j], fmt.Sprintf("gen%d", j)) })
 	ctx.Set("api_values", len(vals))
 	ctx.Set("generated_files", len(gf))
-	ctx.Sample(map[string]interface{}{"value": sp.DescribeOps(vals[1].ops, sp.FullAlphabet()), "fault": "destination accepts exactly k bytes then fails, for every k in 0..size+1, modes short-write+error and error-per-call"})
+	ctx.Sample(map[string]interface{}{"value": sp.DescribeOps(vals[1].ops, alphabet()), "fault": "destination accepts exactly k bytes then fails, for every k in 0..size+1, modes short-write+error and error-per-call"})
 	ctx.Sample(map[string]interface{}{"file": engine.Hex(gf[0]), "fault": "source delivers k bytes then a sticky non-EOF error, for every k"})
 	ctx.Guard(ctx.NontrivialCount() > 1000, "too few faults fired: %d", ctx.NontrivialCount())
 	ctx.Finish("for every value of the family: destination fault at every byte offset (two modes) and, on the bytes written, source fault at every offset; plus source faults on generated byte-level files; non-trivial = cases in which the injected error was actually returned to the library")
